@@ -193,6 +193,15 @@ func newWorld(h *History, withMonitor bool, trace bool) *World {
 	clk, adv := dig.VerifMockClock()
 	w.advance = adv
 	opts = append(opts, clk, dig.VerifSeedRand(h.Opts.RandSeed+1))
+	// the order in which options are given must not matter: a permutation determined by the history
+	if n := len(opts); h.Opts.OptOrder > 0 && n > 1 {
+		k := h.Opts.OptOrder
+		for i := n - 1; i > 0; i-- {
+			j := int(k % int64(i+1))
+			k /= int64(i + 1)
+			opts[i], opts[j] = opts[j], opts[i]
+		}
+	}
 	w.c = dig.New(opts...)
 	w.scopes = []*dig.Scope{nil}
 	w.parent = []int{-1}
